@@ -3,6 +3,7 @@ package main
 import (
 	"fmt"
 	"go/types"
+	"math"
 	"sort"
 	"strings"
 )
@@ -13,14 +14,16 @@ import (
 // slash is part of the scope: /upload/ does not cover /uploads), every timeout of every `timeouts` line of the site.
 func c17R5(h H) {
 	r := h.r
-	r.Rule("R5", "configured limits as decision tables (E10): parseLimits, evaluated on two `limits` blocks of one site with body limits for /upload/, /api, a relative path and the default, and a header limit (sizes an oracle), stores each body limit under exactly its written path (rooted, trailing slash kept) and the header limit in the site config; setupTimeouts, evaluated on two `timeouts` blocks of one site, leaves every timeout either block sets in the site config", 2)
+	r.Rule("R5", "configured limits as decision tables (E10): parseLimits, evaluated on two `limits` blocks of one site with body limits for /upload/, /api, a relative path and the default, and a header limit (sizes an oracle), stores each body limit under the scope it was written for in the form scopes are matched in (rooted, cleaned, trailing slash kept) and the header limit in the site config; parseSize, evaluated on a table of size spellings, gives the byte count or refuses — never a wrapped-around count; setupTimeouts, evaluated on two `timeouts` blocks of one site, leaves every timeout either block sets in the site config", 3)
 	// ---- limits
 	if fn := h.fn("R5", "caskethttp/limits", "parseLimits"); fn != nil {
 		ctlT := fn.Params[0].Type().(*types.Pointer).Elem()
 		// two limits directives of one site (a shared snippet and the site's own, say)
-		lines := [][]string{{"limits", "{"}, {"body", "/upload/", "1kb"}, {"body", "/api", "2kb"}, {"}"}, {"limits", "{"}, {"body", "rel/", "3kb"}, {"body", "5kb"}, {"header", "4kb"}, {"}"}}
-		sizes := map[string]int64{"1kb": 1024, "2kb": 2048, "3kb": 3072, "5kb": 5120, "4kb": 4096}
-		want := map[string]int64{"/upload/": 1024, "/api": 2048, "/rel/": 3072, "/": 5120}
+		lines := [][]string{{"limits", "{"}, {"body", "/upload/", "1kb"}, {"body", "/api", "2kb"}, {"}"}, {"limits", "{"}, {"body", "rel/", "3kb"}, {"body", "/deep///", "6kb"}, {"body", "/deep/./er", "7kb"}, {"body", "5kb"}, {"header", "4kb"}, {"}"}}
+		sizes := map[string]int64{"1kb": 1024, "2kb": 2048, "3kb": 3072, "5kb": 5120, "4kb": 4096, "6kb": 6144, "7kb": 7168}
+		// scopes are matched in their cleaned form (Path.Matches cleans both sides), so that is the form "longest
+		// first" has to order: /deep/// is the scope /deep/, /deep/./er the scope /deep/er
+		want := map[string]int64{"/upload/": 1024, "/api": 2048, "/rel/": 3072, "/": 5120, "/deep/": 6144, "/deep/er": 7168}
 		c := mkController(ctlT, lines)
 		var cfgT types.Type = types.Typ[types.Int]
 		if g := h.p.Func(hs, "GetConfig"); g != nil {
@@ -49,7 +52,7 @@ func c17R5(h H) {
 				return nil, false
 			}
 			res, und := env.run(fn, []aval{aptr{c, ""}})
-			text := "`limits { body /upload/ 1kb ⏎ body /api 2kb } ⏎ limits { body rel/ 3kb ⏎ body 5kb ⏎ header 4kb }`"
+			text := "`limits { body /upload/ 1kb ⏎ body /api 2kb } ⏎ limits { body rel/ 3kb ⏎ body /deep/// 6kb ⏎ body /deep/./er 7kb ⏎ body 5kb ⏎ header 4kb }`"
 			tp, ok := res.(atuple)
 			switch {
 			case und != "":
@@ -83,7 +86,7 @@ func c17R5(h H) {
 					sort.Strings(ks)
 					for k, v := range want {
 						if got[k] != v {
-							bad = fmt.Sprintf("%s: the body limit written for %q (%d bytes) is not stored under that path; stored: %s", text, k, v, strings.Join(ks, ", "))
+							bad = fmt.Sprintf("%s: the body limit written for the scope %q (%d bytes) is not stored under that scope (in the cleaned form scopes are matched and ordered in); stored: %s", text, k, v, strings.Join(ks, ", "))
 							break
 						}
 					}
@@ -97,6 +100,43 @@ func c17R5(h H) {
 			}
 		}
 		r.Check(bad == "", "R5", "limits.parseLimits/limits-as-written", fn.Pos(), "every configured body limit is stored under exactly the path it was written for", bad)
+	}
+	// ---- sizes
+	if fn := h.fn("R5", "caskethttp/limits", "parseSize"); fn != nil {
+		cases := []struct {
+			in   string
+			want int64
+		}{
+			{"5", 5}, {"5b", 5}, {"1kb", 1024}, {"2KB", 2048}, {"3mb", 3 << 20}, {"1gb", 1 << 30}, {"0", 0},
+			{"9223372036854775807", math.MaxInt64}, {"8589934591gb", 8589934591 << 30},
+			{"x", -1}, {"", -1}, {"kb", -1}, {"1tb", -1}, {"1.5kb", -1},
+			// byte counts beyond 63 bits: refused, never a small wrapped-around limit
+			{"9223372036854775808", -1}, {"18014398509481985kb", -1}, {"9007199254740992kb", -1}, {"8589934592gb", -1}, {"17592186044416mb", -1},
+		}
+		bad, nrun := "", 0
+		for _, c := range cases {
+			env := &absEnv{globals: map[string]*aobj{}, noFork: true, maxSteps: 50000}
+			res, und := env.run(fn, []aval{astr(c.in)})
+			nrun++
+			if und != "" {
+				bad = fmt.Sprintf("parseSize(%q): undecided — %s", c.in, und)
+				break
+			}
+			got, ok := res.(aint)
+			if !ok {
+				bad = fmt.Sprintf("parseSize(%q): result %s", c.in, describeAval(res))
+				break
+			}
+			if c.want < 0 && int64(got) >= 0 {
+				bad = fmt.Sprintf("parseSize(%q) = %d: a size that is not a representable byte count must be refused (negative), or the site silently gets a limit nobody wrote", c.in, int64(got))
+				break
+			}
+			if c.want >= 0 && int64(got) != c.want {
+				bad = fmt.Sprintf("parseSize(%q) = %d, the configuration says %d bytes", c.in, int64(got), c.want)
+				break
+			}
+		}
+		r.Check(bad == "", "R5", "limits.parseSize/sizes-as-written", fn.Pos(), "a written size is the byte count it spells, or is refused", fmt.Sprintf("%d spellings", nrun), bad)
 	}
 	// ---- timeouts
 	if fn := h.fn("R5", "caskethttp/timeouts", "setupTimeouts"); fn != nil {
